@@ -34,7 +34,10 @@ class Parser(Emitter):
                 traceback.print_exc()
             error = str(formulaserror.from_message(e))
             # the XLError singletons are shared: drop the frames this raise attached to them
-            e.__traceback__ = None
+            try:
+                e.__traceback__ = None
+            except Exception:
+                pass  # a host exception that refuses the assignment keeps its own traceback
 
         if isinstance(result, formulaserror.XLError):
             error = str(formulaserror.from_message(result))
@@ -66,7 +69,10 @@ class Parser(Emitter):
             if self.debug:
                 traceback.print_exc()
             result['value'] = formulaserror.from_message(e)
-            e.__traceback__ = None
+            try:
+                e.__traceback__ = None
+            except Exception:
+                pass
 
         def valsetter(new_value):
             if new_value is not None:
